@@ -150,6 +150,31 @@ pub fn c13(log: &mut Log, seed: u64, tier: &str) {
                 log.ev(json!({"ev": "Mem", "what": "build", "scenario": format!("build-prefixkeys-{}-{}", if set { "set" } else { "map" }, gname),
                               "n": n, "k": 1, "cells": cells, "maxFan": 4, "maxKeyLen": KEYLEN + 1, "live": jn(live), "peak": jn(peak), "allocs": jn(allocs)}));
             }
+            // a sixth family (sets): sorted but not de-duplicated input - long runs of the same key
+            if set {
+                for &n in &ns {
+                    if n > 1_000_000 {
+                        continue;
+                    }
+                    fst::raw::verif::set_geometry(geo);
+                    let snap = alloc::begin();
+                    let mut b = Builder::new(io::sink()).unwrap();
+                    let cells = { let (r, c) = fst::raw::verif::last_geometry(); let _ = cells; r * c };
+                    let mut key = *b"run:0000";
+                    for g in 0..16usize {
+                        key[4] = b'a' + g as u8;
+                        key[7] = b'0' + (g % 10) as u8;
+                        for _ in 0..(n / 16) {
+                            b.add(&key).unwrap();
+                        }
+                    }
+                    let (live, peak, allocs) = alloc::read(&snap);
+                    b.finish().unwrap();
+                    fst::raw::verif::set_geometry(None);
+                    log.ev(json!({"ev": "Mem", "what": "build", "scenario": format!("build-repeats-set-{}", gname),
+                                  "n": n, "k": 1, "cells": cells, "maxFan": 16, "maxKeyLen": 8, "live": jn(live), "peak": jn(peak), "allocs": jn(allocs)}));
+                }
+            }
             // a fourth family (maps): fan-out 32 at every level and strictly decreasing values, so
             // every insert pushes an output difference down into long-lived nodes near the root
             if !set {
@@ -276,10 +301,30 @@ fn c14_lookup_shapes(log: &mut Log) {
             shapes.push((name.to_string(), keys));
         }
     }
-    for (name, keys) in shapes {
+    // keys that are prefixes of the keys after them (final nodes with transitions)
+    shapes.push(("prefix-chains".to_string(), {
+        let mut v: Vec<Vec<u8>> = vec![];
+        for a in [b'k', b'W', 0x00u8, 0xFF].iter() {
+            let mut k = vec![*a];
+            v.push(k.clone());
+            for d in 0..6u8 {
+                k.push(b'x' + d % 3);
+                v.push(k.clone());
+            }
+        }
+        v.sort();
+        v
+    }));
+    let shapes: Vec<(String, Vec<Vec<u8>>, bool)> = shapes.into_iter().flat_map(|(n, k)| vec![(n.clone(), k.clone(), false), (format!("{}-decreasing", n), k, true)]).collect();
+    for (name, keys, decreasing) in shapes {
+        if decreasing && keys.len() > 2000 && name.starts_with("wiki") {
+            continue;
+        }
         let mut b = Builder::memory();
         for (i, k) in keys.iter().enumerate() {
-            b.insert(k, (i as u64) * 3).unwrap();
+            // (decreasing values leave non-zero final outputs on keys that are prefixes of later keys)
+            let v = if decreasing { ((keys.len() - i) as u64) * 7 + 1 } else { (i as u64) * 3 };
+            b.insert(k, v).unwrap();
         }
         let bytes = b.into_inner().unwrap();
         let maxlen = keys.iter().map(|k| k.len()).max().unwrap_or(0);
